@@ -60,6 +60,16 @@ def r15a(ctx):
     ub, delta, uln = adds[0]
     ok = delta[0] in ('len', 'call') and flow.mentions(delta, lambda z: z == ('field', pushed, 'data'))
     ctx.check(ok, 'R15a', fn, 'delta=pushed', '%s:%d' % (a.body['file'], uln), 'the size added is the byte length of the chunk that is pushed (%s)' % flow.show(delta))
+    # ... on exactly the paths that push it: the pending xorb's byte count is the sum over the chunks it holds
+    before = ub == P or c05.in_iteration_guarded(a, lp, P, a.cfg.out_edges(ub))
+    after = False
+    if not before:
+        from . import loops as L
+        r_ = a.cfg.reach(list(a.cfg.succ[P]), cut_blocks=[ub])
+        exits_ = {y for (x, y) in L._exits(a, lp[1])}
+        after = lp[0] not in r_ and not (r_ & exits_)
+    ctx.check(before or after, 'R15a', fn, 'size counts every push', '%s:%d' % (a.body['file'], uln), 'every path that pushes a chunk into the pending xorb adds its length to new_data_size',
+              'a chunk can be pushed into the pending xorb without its bytes being added to new_data_size (the size add is conditional): the "cut a new xorb first?" test then lets the xorb grow past MAX_XORB_BYTES')
     cuts = a.calls(CUT)
     # a cut may also happen inside an awaited helper of the deduper all of whose successful returns pass cut_new_xorb
     helper_cuts = []
